@@ -50,6 +50,18 @@ func TestC10Schema(t *testing.T) {
 				s.History = append(s.History, fmt.Sprintf("ALTER TABLE %s ADD COLUMN %s %s", tn, rapid.SampledFrom([]string{"added", "\"new col\"", "[x y]"}).Draw(t, "aname"),
 					rapid.SampledFrom([]string{"", "INTEGER", "TEXT DEFAULT 'd'", "INT NOT NULL DEFAULT 0", "REFERENCES other(id)", "TEXT COLLATE NOCASE"}).Draw(t, "atype")))
 			}
+			if rapid.IntRange(0, 4).Draw(t, "renamecol") == 0 {
+				// SQLite rewrites the stored CREATE TABLE / CREATE INDEX text
+				tb := s.Tables[0].Def
+				c := rapid.SampledFrom(tb.Cols).Draw(t, "rcol")
+				s.History = append(s.History, fmt.Sprintf("ALTER TABLE %s RENAME COLUMN %s TO %s", tb.Ident.SQL, c.Ident.SQL,
+					rapid.SampledFrom([]string{"renamed_col", "\"re named\"", "[Ren]", "rowid2"}).Draw(t, "rname")))
+			}
+			if rapid.IntRange(0, 5).Draw(t, "dropcol") == 0 {
+				tb := s.Tables[0].Def
+				c := rapid.SampledFrom(tb.Cols).Draw(t, "dcol")
+				s.History = append(s.History, fmt.Sprintf("ALTER TABLE %s DROP COLUMN %s", tb.Ident.SQL, c.Ident.SQL))
+			}
 			if rapid.IntRange(0, 5).Draw(t, "rename") == 0 {
 				s.History = append(s.History, fmt.Sprintf("ALTER TABLE %s RENAME TO %s", s.Tables[len(s.Tables)-1].Def.Ident.SQL, "renamed_table"))
 			}
